@@ -349,12 +349,20 @@ def part_b(facts, res):
         ip.pattern_models.insert(0, (lambda p, f: p.endswith("::from_str_radix"), m_radix))
 
         def p_write(ip_, st, fr, t, args):
+            if not (isinstance(args[1], Int) and isinstance(args[2], Int)):
+                st.tag("unknown-callee")      # the operand was computed through something the interpreter does not follow: imprecise, decides nothing
+                st.add_eff(("bus.write", None, None))
+                return [(None, Enum(models.OK, [UNIT])), (None, Enum(models.ERR, [Opaque("buserr")]))]
             st.add_eff(("bus.write", args[1].bits, args[2].bits))
             i = st.count("ctl")
             okv = bv.ctl_var("wok", i)
             return [(okv, Enum(models.OK, [UNIT])), (bv.M.NOT(okv), Enum(models.ERR, [Opaque("buserr")]))]
 
         def p_port(ip_, st, fr, t, args):
+            if not (isinstance(args[1], Int) and isinstance(args[2], Int)):
+                st.tag("unknown-callee")
+                st.add_eff(("write_port", None, None))
+                return UNIT
             st.add_eff(("write_port", args[1].bits, args[2].bits))
             return UNIT
         ip.primitives[facts.body("bus::Bus::write")["key"]] = p_write
@@ -371,6 +379,12 @@ def part_b(facts, res):
         acted = 0
         for o in outs:
             st = o.state
+            if any(t_ in st.tags for t_ in ("opaque-switch", "opaque-assert", "unknown-callee", "unwrap-opaque")):
+                msg_ = "imprecise trace in %s: %r" % (nm, st.tags)
+                if msg_ not in res.errors:
+                    res.errors.append(msg_)
+                acted = acted or 1
+                continue     # an imprecisely followed trace decides nothing
             if o.kind == "panic":
                 res.ob(False)
                 res.finding("%s|panic|%s" % (nm, o.info.get("kind")), "%s can panic on a malformed line (%s, line %s)" % (nm, o.info.get("kind"), o.info.get("line")), witness(st.pc))
